@@ -157,11 +157,17 @@ contract(O + "MemoryLogger.reset", props=["C16", "C14"], returns="none",
 contract(O + "MemoryLogger.flushTracebacks", props=["C16", "C14"], types={"exceptionType": "cls"}, returns="list[dict]",
          requires=[("monitor-invariant", MONITOR_INV + " and " + ML_LISTS_SEPARATE)],
          modifies=["self.tracebackMessages"],
-         loops={0: {"locals": {}, "modifies": ["seq(RESULT)", "seq(REMAINING)"],
+         ghosts={"FL": "seq", "KP": "seq"}, ghost_defaults={"FL": "seq(())", "KP": "seq(())"},
+         loops={0: {"locals": {"FL": "seq", "KP": "seq"}, "modifies": ["seq(RESULT)", "seq(REMAINING)"],
+                    # the specification as a fold over the traceback messages: flushed = those whose reason is an instance of the type
+                    "ghost_step": [("FL", "FL + ite(instance_of(dget(_x, 'reason'), exceptionType), [_x], [])"),
+                                   ("KP", "KP + ite(instance_of(dget(_x, 'reason'), exceptionType), [], [_x])")],
                     "inv": [("partition-of-the-processed-prefix", "len(seq(RESULT)) + len(seq(REMAINING)) == _i"),
+                            ("flushed-and-kept-so-far-are-exactly-the-matching-and-the-other-tracebacks-in-order", "seq(RESULT) == FL and seq(REMAINING) == KP"),
                             ("lists-untouched", "seq(self.messages) == old(seq(self.messages)) and seq(self.serializers) == old(seq(self.serializers))")]}},
          aliases={"RESULT": 0, "REMAINING": 1},
          ensures=[("every-traceback-flushed-or-kept", "len(seq(result)) + len(seq(self.tracebackMessages)) == len(old(seq(self.tracebackMessages)))", ["C16"]),
+                  ("flushed-are-exactly-the-tracebacks-of-that-exception-type-the-others-stay-in-order", "seq(result) == FL and seq(self.tracebackMessages) == KP", ["C14", "C16"]),
                   ("messages-untouched", "seq(self.messages) == old(seq(self.messages)) and seq(self.serializers) == old(seq(self.serializers))", ["C16"]),
                   ("monitor-invariant", MONITOR_INV, ["C16"])])
 
@@ -169,9 +175,24 @@ contract(O + "MemoryLogger._validate_message", props=["C14", "C16"], types={"dic
          assumes=[("E12 ownership (ownership_check.py): a serializer's field table never escapes, so it is not the message dictionary",
                    "implies(serializer is not None, ref(dictionary) != ref(typed(serializer, '_MessageSerializer').fields))")],
          modifies=["dict(dictionary)", "#CALLS", "#NTOP"],
-         loops={0: {"locals": {}, "modifies": ["#CALLS", "#NTOP"], "inv": [("dictionary-untouched-by-key-check", "dict_of(dictionary) == old(dict_of(dictionary))")]}},
-         ensures=[("accepted-means-json-encodable", "last(CALLS).tag == 'dumps' and last(CALLS).a == box(dictionary)", ["C14"])],
-         raises=[{"cls": "BaseException", "ensures": []}])
+         loops={0: {"locals": {}, "modifies": ["#CALLS", "#NTOP"],
+                    "inv": [("dictionary-untouched-by-key-check", "dict_of(dictionary) == old(dict_of(dictionary))"),
+                            ("keys-so-far-are-text-or-bytes", "forall(lambda k: implies(contains(_done, k), is_str(k) or is_bytes(k)), 'val')")]}},
+         ghosts={"NVALID": "int", "NSER": "int", "VARG": "Any", "SARG": "Any", "FROM": "Any"}, ghost_defaults={"NVALID": "0", "NSER": "0", "FROM": "None"},
+         after={"_MessageSerializer.validate#0": [("NVALID", "NVALID + 1"), ("VARG", "box(message)")],
+                "_MessageSerializer.serialize#0": [("NSER", "NSER + 1"), ("SARG", "box(message)")]},
+         after_raise={"_MessageSerializer.validate#0": [("NVALID", "NVALID + 1"), ("VARG", "box(message)"), ("FROM", "box(exc)")],
+                      "_MessageSerializer.serialize#0": [("NSER", "NSER + 1"), ("SARG", "box(message)"), ("FROM", "box(exc)")],
+                      "Str.str#*": [("FROM", "box(exc)")], "Str.repr#*": [("FROM", "box(exc)")]},
+         ensures=[("accepted-means-json-encodable", "last(CALLS).tag == 'dumps' and last(CALLS).a == box(dictionary)", ["C14"]),
+                  ("with-a-serializer-the-message-is-validated-and-then-serialized-exactly-once-without-one-neither",
+                   "ite(serializer is None, NVALID == 0 and NSER == 0, NVALID == 1 and NSER == 1 and VARG == box(dictionary) and SARG == box(dictionary))", ["C14"]),
+                  ("accepted-means-every-field-name-is-text-or-utf8-bytes",
+                   "forall(lambda k: implies(contains(old(dict_of(dictionary)), k), is_str(k) or is_bytes(k)), 'val')", ["C14"])],
+         raises=[{"cls": "BaseException",
+                  "ensures": [("only-a-TypeError-of-its-own-or-what-the-serializer-raised-escapes",
+                               "isinst(exc, 'TypeError') or isinst(exc, 'UnicodeDecodeError') or box(exc) == FROM", ["C14"]),
+                              ("the-serializer-if-any-was-consulted-first", "serializer is None or NVALID == 1", ["C14"])]}])
 
 contract(O + "MemoryLogger.write", props=["C16", "C14", "C13"], types={"dictionary": "dict", "serializer": "Opt[_MessageSerializer]"}, returns="none",
          requires=[("monitor-invariant", MONITOR_INV + " and " + ML_LISTS_SEPARATE),
@@ -202,10 +223,17 @@ contract(O + "MemoryLogger.serialize", props=["C16"], returns="list[dict]",
                    ("every-message-has-a-serializer", "forall(lambda k: implies(0 <= k and k < len(seq(self.serializers)), isinst(seq(self.serializers)[k], '_MessageSerializer', True)), 'int')")],
          modifies=["#CALLS", "#NTOP"],
          aliases={"RESULT": 0},
-         loops={0: {"locals": {}, "modifies": ["#CALLS", "#NTOP", "seq(RESULT)"],
+         ghosts={"SERD": "seq", "SERS": "seq"}, ghost_defaults={"SERD": "seq(())", "SERS": "seq(())"},
+         after={"_MessageSerializer.serialize#0": [("SERD", "SERD + [message]"), ("SERS", "SERS + [self]")]},
+         loops={0: {"locals": {"SERD": "seq", "SERS": "seq"}, "modifies": ["#CALLS", "#NTOP", "seq(RESULT)"],
                     "inv": [("one-copy-per-message", "len(seq(RESULT)) == _i"),
+                            ("each-copy-went-through-the-serializer-recorded-with-its-message",
+                             "seq(RESULT) == SERD and len(SERS) == _i and "
+                             "forall(lambda v: implies(contains(SERD, v), fresh(v)), 'val')"),
                             ("stored-lists-untouched", "seq(self.messages) == old(seq(self.messages)) and seq(self.serializers) == old(seq(self.serializers))")]}},
          ensures=[("one-serialized-copy-per-message", "len(seq(result)) == len(old(seq(self.messages)))", ["C16"]),
+                  ("every-result-is-a-private-copy-serialized-by-the-serializer-recorded-with-its-message",
+                   "seq(result) == SERD and len(SERS) == len(old(seq(self.serializers))) and forall(lambda v: implies(contains(SERD, v), fresh(v)), 'val')", ["C16", "C13"]),
                   ("stored-lists-untouched", "seq(self.messages) == old(seq(self.messages)) and seq(self.serializers) == old(seq(self.serializers)) and " + MONITOR_INV, ["C16"])],
          raises=[{"cls": "BaseException", "ensures": [("monitor-invariant", MONITOR_INV + " and seq(self.messages) == old(seq(self.messages))", ["C16"])]}])
 
